@@ -52,6 +52,7 @@ SPECS = {
     "hostile-inputs": ("Eb", lambda t: ["hostile-inputs"], "generated hostile files (boundary integers in the numeric slots, deep nesting, cycles, truncation) x 5 presets in child processes capped at 4 GiB / 20 s: no panic, abort, stack overflow or hang"),
     "pagetree": ("Eb", lambda t: ["pagetree", "3" if t == "thorough" else "2"], "page trees over 3 leaves and 3 /Pages nodes (shared, repeated, cyclic kids), attribute placements, chains of 1..40 levels: page count, page at each index, inherited MediaBox/Rotate"),
     "cmap": ("Eb", lambda t: ["cmap", "3" if t == "thorough" else "2"], "hand-written CMaps (1..4-byte codes, bfchar, bfrange offset/array form, ranges crossing a row) and ToUnicodeCMapBuilder round trips through CMap::parse / map / to_unicode"),
+    "pageops": ("Eb", lambda t: ["pageops"], "extract / split+merge / reverse / rotate on a 3-page source (multi-stream contents, inherited and own MediaBox/Rotate): output page k == input page perm[k] (content operators, MediaBox, rotation + angle); one page with a non-zero MediaBox origin and a CropBox"),
     "labels": ("Eb", lambda t: ["labels", "20000" if t == "thorough" else "5000"], "decimal/roman format(n) vs reference formatters; PageLabel/PageLabelTree::to_dict read by an independent object-level reader"),
     "content": ("Eb", lambda t: ["content", "4" if t == "thorough" else "3"], "API -> content stream -> ContentParser::parse_strict: show-text operands and f64 operands with NaN/inf"),
     "png-grid": ("Eb", lambda t: ["png-grid"], "PNG files from a reference encoder (gray 1/2/4/8 bit, RGB8; filters 0-4; widths 1..17) -> Image::from_png_data vs expected 8-bit samples"),
@@ -92,6 +93,10 @@ def run(prop, names, tier):
                 rec["tiff_total"] = res.get("tiff_total"); rec["tiff_wrong"] = res.get("tiff_wrong")
                 rec["failures"].append(dict(unit="standin", function="filters-roundtrip-tiff2", message=f"Eb stand-in: {res['tiff_wrong']} of {res['tiff_total']} TIFF-predictor (Predictor 2) streams from a reference encoder do not decode to the original bytes",
                                             line=0, src=None, spans=[], rendered=json.dumps(res.get("tiff_examples"))[:1500], engine="Eb", standin_witness=res.get("tiff_examples")))
+            if nm == "pageops" and res.get("origin_wrong"):
+                rec["origin_wrong"] = res.get("origin_wrong")
+                rec["failures"].append(dict(unit="standin", function="pageops-origin", message="Eb stand-in: a page whose MediaBox has a non-zero origin (and a CropBox) does not keep its boxes through extract_pages_to_file",
+                                            line=0, src=None, spans=[], rendered=json.dumps(res.get("origin_examples"))[:1500], engine="Eb", standin_witness=res.get("origin_examples")))
             if nm == "opnames" and res.get("irregular_wrong"):
                 rec["irregular_wrong"] = res.get("irregular_wrong")
                 rec["failures"].append(dict(unit="standin", function="opnames-irregular", message=f"Eb stand-in: {res['irregular_wrong']} resource names with white space / delimiters / '#' are not read back from the content stream",
